@@ -283,6 +283,174 @@ async def drive_ap2(history):
     return trace, done
 
 
+# deeper call-site scenarios: the real transport-facing classes under the keep-alive ------------
+
+async def drive_ap2_deep(history):
+    """AP2Session.start_keep_alive on top of the REAL RtspSession and HttpConnection (fake
+    transport).  Device behaviour per keep-alive: O = answers 200, E = answers 500 (an error
+    status), F = stays silent.  The unchanged code counts E and F as failed keep-alives."""
+    from pyatv.protocols.airplay.ap2_session import AP2Session
+    from pyatv.auth.hap_pairing import NO_CREDENTIALS
+    from pyatv.settings import InfoSettings
+    from pyatv.support.state_producer import StateProducer
+    from pyatv.support.http import HttpConnection
+    from pyatv.support.rtsp import RtspSession
+
+    trace = []
+    reqs = []
+
+    class Tr:
+        def write(self, data):
+            reqs.append(bytes(data))
+
+        def close(self):
+            pass
+
+        def get_extra_info(self, name, default=None):
+            return ("127.0.0.1", 7000)
+
+    class L:
+        def connection_lost(self, exc):
+            trace.append("Failure")
+
+        def connection_closed(self):
+            trace.append("Finish")
+
+    listener = L()
+    sp = StateProducer()
+    sp.listener = listener
+    conn = HttpConnection()
+    conn.transport = Tr()
+    conn._local_ip = conn._remote_ip = "127.0.0.1"
+    session = AP2Session("127.0.0.1", 7000, NO_CREDENTIALS, InfoSettings())
+    session.connection = conn
+    session.rtsp = RtspSession(conn)
+    session.start_keep_alive(sp)
+    seen = 0
+    for ev in history:
+        for _ in range(4000):
+            if len(reqs) > seen or "Failure" in trace or "Finish" in trace:
+                break
+            await asyncio.sleep(0.05)
+        if len(reqs) <= seen:
+            break
+        req = reqs[seen]
+        seen += 1
+        trace.append("Send")
+        cseq = None
+        for line in req.split(b"\r\n"):
+            if line.lower().startswith(b"cseq:"):
+                cseq = line.split(b":", 1)[1].strip()
+        if ev == "O":
+            conn.data_received(b"RTSP/1.0 200 OK\r\nCSeq: " + cseq + b"\r\nContent-Length: 0\r\n\r\n")
+            await asyncio.sleep(0)
+        elif ev == "E":
+            conn.data_received(b"RTSP/1.0 500 Internal Server Error\r\nCSeq: " + cseq + b"\r\nContent-Length: 0\r\n\r\n")
+            await asyncio.sleep(0)
+        else:
+            await asyncio.sleep(15)     # HTTP request timeout is 10 s
+        for _ in range(10):
+            await asyncio.sleep(0)
+    if "Failure" in trace:
+        n = len(reqs)
+        await asyncio.sleep(300)
+        if len(reqs) != n:
+            trace.append("ActivityAfterFailure")
+    task = session._feedback_task
+    done = task.done()
+    if not done:
+        n = len(trace)
+        task.cancel()
+        try:
+            await task
+        except asyncio.CancelledError:
+            pass
+        del trace[n:]
+    return trace
+
+
+async def drive_mrp_deep(history):
+    """MrpProtocol.enable_heartbeat on top of the REAL MrpConnection with a device listener: after
+    the fatal run the device listener must be told exactly once that the connection is gone."""
+    from pyatv.protocols.mrp import messages, protobuf
+    from pyatv.protocols.mrp.connection import MrpConnection
+    from pyatv.protocols.mrp.protocol import MrpProtocol, ProtocolState
+    from pyatv.auth.hap_srp import SRPAuthHandler
+    from pyatv.core import MutableService
+    from pyatv.const import Protocol
+    from pyatv.settings import InfoSettings
+    from pyatv.support.state_producer import StateProducer
+    from pyatv.support.variant import read_variant
+
+    loop = asyncio.get_event_loop()
+    reports = []
+    sent = []
+
+    class L:
+        def connection_lost(self, exc):
+            reports.append("lost")
+
+        def connection_closed(self):
+            reports.append("closed")
+
+    listener = L()
+    sp = StateProducer(max_calls=1)
+    sp.listener = listener
+    conn = MrpConnection("127.0.0.1", 1, loop, atv=sp)
+
+    class Tr:
+        closed = False
+
+        def write(self, data):
+            sent.append(bytes(data))
+
+        def close(self):
+            if not self.closed:
+                self.closed = True
+                loop.call_soon(conn.connection_lost, None)    # what a real transport does
+
+        def can_write_eof(self):
+            return False
+
+    tr = Tr()
+    conn._transport = tr
+    proto = MrpProtocol(conn, SRPAuthHandler(), MutableService("id", Protocol.MRP, 0, {}), InfoSettings())
+    proto._state = ProtocolState.READY
+    proto.enable_heartbeat()
+    trace = []
+    seen = 0
+    for ev in history:
+        for _ in range(2000):
+            if len(sent) > seen or tr.closed:
+                break
+            await asyncio.sleep(0.1)
+        if tr.closed or len(sent) <= seen:
+            break
+        raw = sent[seen]
+        seen += 1
+        trace.append("Send")
+        if ev == "O":
+            length, body = read_variant(raw)
+            msg = protobuf.ProtocolMessage()
+            msg.ParseFromString(body[:length])
+            resp = messages.create(protobuf.GENERIC_MESSAGE)
+            resp.identifier = msg.identifier
+            proto.message_received(resp, None)
+            await asyncio.sleep(0)
+        else:
+            await asyncio.sleep(5.5)
+    if tr.closed:
+        trace.append("Failure")
+        n = len(sent)
+        await asyncio.sleep(300)
+        if len(sent) != n:
+            trace.append("ActivityAfterFailure")
+    proto.stop()
+    for _ in range(5):
+        await asyncio.sleep(0)
+    return trace, list(reports), tr.closed
+
+
 def callsites(ctx, cases_mrp, cases_ap2):
     import itertools
     maxlen = 5 if not ctx.thorough else 7
@@ -302,6 +470,42 @@ def callsites(ctx, cases_mrp, cases_ap2):
                     ctx.violation("C19:mrp-callsite:" + e, "MrpProtocol keep-alive: " + e,
                                   {"site": "mrp", "device": hist, "abandoned_request_before": ab, "impl_trace": trace})
                 cases_mrp.append((r, hist, [t for t in trace if t != "ActivityAfterFailure"], "Failure" in trace))
+    # the real transport-facing classes below the keep-alive
+    for n in range(1, maxlen):
+        for hist in itertools.product("OEF", repeat=n):
+            hist = "".join(hist)
+            mh = hist.replace("E", "F")
+            if model_py(r, mh[:-1]):
+                continue
+            trace = vloop.run(drive_ap2_deep, hist)
+            ctx.case(("ap2-deep", hist), nontrivial=True, sample={"site": "AP2Session keep-alive over real RtspSession/HttpConnection", "device": hist, "trace": trace} if hist == "OEF"[:n] else None)
+            ctx.count("ap2-deep")
+            errs = [e for e in oracle(r, mh, [t for t in trace if t != "ActivityAfterFailure"], True) if e != "finish-not-once-on-cancel"]
+            if "ActivityAfterFailure" in trace:
+                errs.append("activity-after-failure")
+            for e in errs:
+                ctx.violation("C19:ap2-callsite:" + e, "AP2 keep-alive over the real RTSP/HTTP classes: " + e,
+                              {"site": "ap2-deep", "device": hist, "impl_trace": trace})
+            cases_mrp.append((r, mh, [t for t in trace if t != "ActivityAfterFailure"], "Failure" in trace))
+    for n in range(1, maxlen):
+        for hist in itertools.product("OF", repeat=n):
+            hist = "".join(hist)
+            if model_py(r, hist[:-1]):
+                continue
+            trace, reports, closed = vloop.run(drive_mrp_deep, hist)
+            ctx.case(("mrp-deep", hist), nontrivial=True)
+            ctx.count("mrp-deep")
+            errs = [e for e in oracle(r, hist, [t for t in trace if t != "ActivityAfterFailure"], True) if e != "finish-not-once-on-cancel"]
+            if "ActivityAfterFailure" in trace:
+                errs.append("activity-after-failure")
+            # the device listener is told exactly once that the connection is gone (after the fatal run
+            # or at the latest when the protocol is stopped at the end of the scenario)
+            if len(reports) != 1:
+                errs.append("device-listener-told-%d-times" % len(reports))
+            for e in errs:
+                ctx.violation("C19:mrp-callsite:" + e, "MRP keep-alive over the real MrpConnection: " + e,
+                              {"site": "mrp-deep", "device": hist, "impl_trace": trace, "listener_reports": reports})
+            cases_mrp.append((r, hist, [t for t in trace if t != "ActivityAfterFailure"], "Failure" in trace))
     # user closes the connection (stop) while a keep-alive is outstanding, after every live prefix
     for n in range(0, maxlen):
         for hist in itertools.product("OF", repeat=n):
